@@ -569,7 +569,7 @@ class Runner(object):
             return o
         if self.monitors:
             self.check_call(i, args, kwds, expect, k, cls, result, raised, s0, s1)
-        if raised is not None:
+        if raised is not None or getattr(self, 'abort_case', False):
             o['abort'] = True   # state after an unexpected exception is not modelled further
         return o
 
@@ -638,8 +638,17 @@ class Runner(object):
                            mech=self._mech_wrong_result(k, result, cls), keys=[k])
         # ---- C02 compute-once
         n_eval = s1['nlog'] - s0['nlog']
-        if cfg['safe'] and cls in ('hit', 'load') and n_eval == 1 and '__h__' in repr(self.case['ops'][self.step_i][1:3]) \
-                and mem1 == mem0 and tuple(s1['info'][j] - s0['info'][j] for j in range(3)) == (0, 1, 0):
+        dlt = tuple(s1['info'][j] - s0['info'][j] for j in range(3))
+        if cfg['safe'] and cls in ('hit', 'load') and '__h__' in repr(self.case['ops'][self.step_i][1:3]) \
+                and mem1 != mem0 and n_eval <= 1 and sum(dlt) == 1:
+            # ... and when klepto's own `except KeyError` takes such an internal failure for a miss (an argument whose
+            # repr() raises KeyError), the call runs the miss path with its purge: answered correctly, counted once,
+            # but the history is not modelled further
+            self.note('calls_degraded_though_keyable')
+            self.abort_case = True
+            return
+        if cfg['safe'] and cls in ('hit', 'load') and '__h__' in repr(self.case['ops'][self.step_i][1:3]) \
+                and mem1 == mem0 and ((n_eval == 1 and dlt == (0, 1, 0)) or (n_eval == 0 and dlt in ((0, 0, 1), (1, 0, 0)))):
             # an argument that cannot be printed / pickled / hashed everywhere (BadRepr & co.): a safe decorator may
             # degrade to plain evaluation at any internal step that needs repr() or hash() - e.g. CPython formatting
             # the "x not in deque" message - even though the key itself could be built; that is the documented
